@@ -276,7 +276,7 @@ Proof. induction a; simpl; auto. Qed.
 Lemma rwalk_filter fl nd : forall p, rwalk fl p nd = filter (keep fl (length p)) (rfiles p nd).
 Proof.
   induction nd as [d|es IH] using rnode_ind'; intros p.
-  - simpl. unfold keep. simpl fst. rewrite <- (app_nil_r p) at 2. rewrite skipn_app_exact. simpl.
+  - simpl. unfold keep. simpl fst. rewrite skipn_all. simpl.
     rewrite andb_false_r. reflexivity.
   - rewrite rwalk_dir, rfiles_dir, filter_concat. unfold by_entry.
     rewrite map_map.
@@ -288,14 +288,14 @@ Proof.
     + (* a dot entry: every file below it is filtered out *)
       assert (HF : forall pd, In pd (rfiles (p ++ [fst e]) (snd e)) -> keep fl (length p) pd = false).
       { intros pd Hpd. destruct (rfiles_prefix _ _ _ Hpd) as [q Eq]. unfold keep. rewrite Eq, <- app_assoc.
-        rewrite skipn_app_exact. simpl. unfold skip_name in ES. apply andb_true_iff in ES. destruct ES as [E1 E2].
+        rewrite skipn_app_exact. cbn [app existsb]. unfold skip_name in ES. apply andb_true_iff in ES. destruct ES as [E1 E2].
         rewrite E1, E2. reflexivity. }
       induction (rfiles (p ++ [fst e]) (snd e)) as [|x l IHl]; [reflexivity|].
       simpl. rewrite HF by (left; auto). apply IHl. intros pd Hpd. apply HF. right. auto.
     + rewrite (IH e He). apply filter_ext_in. intros pd Hpd.
       destruct (rfiles_prefix _ _ _ Hpd) as [q Eq]. unfold keep. rewrite Eq.
-      rewrite skipn_app_exact. rewrite <- app_assoc. rewrite skipn_app_exact. simpl.
-      unfold skip_name in ES. destruct (has_prefix savedir_dot_prefix (fst e)); simpl in *; [|reflexivity].
+      rewrite skipn_app_exact. rewrite <- app_assoc. rewrite skipn_app_exact. cbn [app existsb].
+      unfold skip_name in ES. destruct (has_prefix savedir_dot_prefix (fst e)); cbn [andb orb] in *; [|reflexivity].
       rewrite ES. reflexivity.
 Qed.
 
